@@ -262,12 +262,22 @@ Record thread := {
 
 (* source closer: not started | started, about to call Close | returned | inside Close forever *)
 Inductive cl_state := CNot | CPending | CDone | CBlocked.
-Inductive main_pc := MWait | MFinal | MDone.      (* wg.Wait(); removeSession + deferred covertConn.Close(); returned *)
+Inductive main_pc := MWait | MFinal | MDone.
+
+(* closeConn distinguishes connection kinds: a *net.TCPConn gets SetLinger(10 s) and then Close,
+   every other connection just Close.  There is no other way a connection is shut down: in
+   particular no step closes only one half of it. *)
+Inductive kind := KTcp | KOther.
+Inductive cop := CSetLinger | CClose.
+Definition close_ops (k : kind) : list cop :=
+  match k with KTcp => [CSetLinger; CClose] | KOther => [CClose] end.      (* wg.Wait(); removeSession + deferred covertConn.Close(); returned *)
 Inductive tid := TUp | TDown | TUpCl | TDownCl | TMain.
 
 Record cfg := {
   closedA : bool; closedB : bool;                 (* A = client connection, B = covert connection *)
   ncloseA : nat; ncloseB : nat;
+  kindA : kind; kindB : kind;                     (* what sort of connection each one is *)
+  opsA : list cop; opsB : list cop;               (* the shutdown calls made on each connection, in order *)
   up : thread; down : thread;
   clU : cl_state; clD : cl_state;
   wg : nat; gauge : Z; main : main_pc;
@@ -278,10 +288,12 @@ Definition init_thread (s : tscript) : thread :=
   {| th_pc := PDl0; th_acc := acc0; th_scr := s; th_rlog := []; th_wlog := []; th_dlog := [] |}.
 
 (* state right after  wg.Add(2); addSession(); go halfPipe(up); go halfPipe(down) *)
-Definition init_cfg (g0 : Z) (su sd : tscript) : cfg :=
+Definition init_cfg_k (ka kb : kind) (g0 : Z) (su sd : tscript) : cfg :=
   {| closedA := false; closedB := false; ncloseA := 0; ncloseB := 0;
+     kindA := ka; kindB := kb; opsA := []; opsB := [];
      up := init_thread su; down := init_thread sd; clU := CNot; clD := CNot;
      wg := 2; gauge := (g0 + 1)%Z; main := MWait; client_err := None; covert_err := None |}.
+Definition init_cfg (g0 : Z) (su sd : tscript) : cfg := init_cfg_k KOther KOther g0 su sd.
 
 Definition set_scr (s : tscript) (r : rscript) (w : wscript) (d : dscript) : tscript :=
   {| t_reads := r; t_writes := w; t_dls := d; t_cdst := t_cdst s; t_csrc := t_csrc s; t_csrc_blocks := t_csrc_blocks s |}.
@@ -351,11 +363,13 @@ Definition step (c : cfg) (t : tid) : cfg :=
           let res := close_res (closedB c) (t_cdst (th_scr th)) in
           let '(cl, cv) := stats_close res false (client_err c) (covert_err c) in
           {| closedA := closedA c; closedB := true; ncloseA := ncloseA c; ncloseB := S (ncloseB c);
+             kindA := kindA c; kindB := kindB c; opsA := opsA c; opsB := opsB c ++ close_ops (kindB c);
              up := thread_step th (closedA c) (closedB c); down := down c; clU := clU c; clD := clD c;
              wg := pred (wg c); gauge := gauge c; main := main c; client_err := cl; covert_err := cv |}
       | _ =>
           let th' := thread_step th (closedA c) (closedB c) in
           {| closedA := closedA c; closedB := closedB c; ncloseA := ncloseA c; ncloseB := ncloseB c;
+             kindA := kindA c; kindB := kindB c; opsA := opsA c; opsB := opsB c;
              up := th'; down := down c;
              clU := if pc_is_close (th_pc th') then CPending else clU c; clD := clD c;
              wg := wg c; gauge := gauge c; main := main c;
@@ -372,11 +386,13 @@ Definition step (c : cfg) (t : tid) : cfg :=
           let res := close_res (closedA c) (t_cdst (th_scr th)) in
           let '(cl, cv) := stats_close res true (client_err c) (covert_err c) in
           {| closedA := true; closedB := closedB c; ncloseA := S (ncloseA c); ncloseB := ncloseB c;
+             kindA := kindA c; kindB := kindB c; opsA := opsA c ++ close_ops (kindA c); opsB := opsB c;
              up := up c; down := thread_step th (closedB c) (closedA c); clU := clU c; clD := clD c;
              wg := pred (wg c); gauge := gauge c; main := main c; client_err := cl; covert_err := cv |}
       | _ =>
           let th' := thread_step th (closedB c) (closedA c) in
           {| closedA := closedA c; closedB := closedB c; ncloseA := ncloseA c; ncloseB := ncloseB c;
+             kindA := kindA c; kindB := kindB c; opsA := opsA c; opsB := opsB c;
              up := up c; down := th';
              clU := clU c; clD := if pc_is_close (th_pc th') then CPending else clD c;
              wg := wg c; gauge := gauge c; main := main c;
@@ -394,6 +410,7 @@ Definition step (c : cfg) (t : tid) : cfg :=
           let res := if blk then None else close_res (closedA c) (t_csrc (th_scr (up c))) in
           let '(cl, cv) := stats_close res true (client_err c) (covert_err c) in
           {| closedA := true; closedB := closedB c; ncloseA := S (ncloseA c); ncloseB := ncloseB c;
+             kindA := kindA c; kindB := kindB c; opsA := opsA c ++ close_ops (kindA c); opsB := opsB c;
              up := up c; down := down c; clU := if blk then CBlocked else CDone; clD := clD c;
              wg := wg c; gauge := gauge c; main := main c; client_err := cl; covert_err := cv |}
       | _ => c
@@ -406,6 +423,7 @@ Definition step (c : cfg) (t : tid) : cfg :=
           let res := if blk then None else close_res (closedB c) (t_csrc (th_scr (down c))) in
           let '(cl, cv) := stats_close res false (client_err c) (covert_err c) in
           {| closedA := closedA c; closedB := true; ncloseA := ncloseA c; ncloseB := S (ncloseB c);
+             kindA := kindA c; kindB := kindB c; opsA := opsA c; opsB := opsB c ++ close_ops (kindB c);
              up := up c; down := down c; clU := clU c; clD := if blk then CBlocked else CDone;
              wg := wg c; gauge := gauge c; main := main c; client_err := cl; covert_err := cv |}
       | _ => c
@@ -415,11 +433,13 @@ Definition step (c : cfg) (t : tid) : cfg :=
       | MWait, O =>
           (* wg.Wait() returns; removeSession() *)
           {| closedA := closedA c; closedB := closedB c; ncloseA := ncloseA c; ncloseB := ncloseB c;
+             kindA := kindA c; kindB := kindB c; opsA := opsA c; opsB := opsB c;
              up := up c; down := down c; clU := clU c; clD := clD c;
              wg := wg c; gauge := (gauge c - 1)%Z; main := MFinal; client_err := client_err c; covert_err := covert_err c |}
       | MFinal, _ =>
           (* deferred covertConn.Close() *)
           {| closedA := closedA c; closedB := true; ncloseA := ncloseA c; ncloseB := S (ncloseB c);
+             kindA := kindA c; kindB := kindB c; opsA := opsA c; opsB := opsB c ++ close_ops (kindB c);
              up := up c; down := down c; clU := clU c; clD := clD c;
              wg := wg c; gauge := gauge c; main := MDone; client_err := client_err c; covert_err := covert_err c |}
       | _, _ => c
